@@ -470,7 +470,7 @@ def nanbox_values(r):
     elif kind == 2:
         u = (0x7FF8 << 48) | r.getrandbits(48)
     elif kind == 3:
-        u = (0xFFFF << 48) | (t << 47 & 0) | payload
+        u = (0xFFFF << 48) | payload
     elif kind == 4:
         u = r.choice([0x7FF0000000000000, 0xFFF0000000000000, 0x7FF8000000000000, 0xFFF8000000000000,
                       0x7FF0000000000001, 0xFFFFFFFFFFFFFFFF, 0x8000000000000000, 1])
